@@ -21,6 +21,7 @@ for f in allf:
     what = f["what"].replace("|", "\\|").replace("\n", " ")
     sec5.append(f"| {f['id']} | {f.get('status')} | {f.get('commit','')[:9] if f.get('commit') else ''} | {what[:400]} |")
 nopen = sum(1 for f in allf if f.get("status") == "open"); nfixed = sum(1 for f in allf if f.get("status") == "fixed")
+sec5 += ["", rd("design/05-probes.md").rstrip()]
 sec5 += ["", f"Totals: {len(allf)} findings, {nfixed} fixed by `fix:` commits, {nopen} open (reason each stays open: see `why_open` in `findings/*.json` / the property's section).", ""]
 log = subprocess.run(["git", "-C", "/repo", "log", "--reverse", "--format=%h %s"], stdout=subprocess.PIPE).stdout.decode().split("\n")
 sec7 = ["## 7. Hooks and fixes in `/repo`", "",
